@@ -17,6 +17,7 @@ import (
 	"bufio"
 	"bytes"
 	"crypto/sha256"
+	"encoding/binary"
 	"encoding/hex"
 	"encoding/json"
 	"fmt"
@@ -98,6 +99,13 @@ func (w *world) addr(spec string) *types.Address {
 		return a.Address()
 	case "x":
 		return types.NewAddressByStr(p[1])
+	case "w": // address of the XVM contract deployed by <sender spec> with account nonce <n>: "w:u:3/0"
+		q := strings.SplitN(p[1], "/", 2)
+		n, _ := strconv.ParseUint(q[1], 10, 64)
+		nb := make([]byte, 8)
+		binary.LittleEndian.PutUint64(nb, n)
+		h := sha256.Sum256(append(append([]byte{}, w.addr(q[0]).Bytes()...), nb...))
+		return types.NewAddress(h[12:])
 	case "nil":
 		return nil
 	}
@@ -757,7 +765,11 @@ func (w *world) doStep1(s *step) map[string]interface{} {
 				st = 1
 			}
 			ordered := i < len(ev.TxHashList) && ev.TxHashList[i].String() == tx.GetHash().String()
-			recs = append(recs, []interface{}{st, errClass(string(r.Ret)), retText(r.Ret), ordered, len(r.Events)})
+			var retv interface{}
+			if st == 0 {
+				retv = valCode(r.Ret, len(r.Ret) > 0)
+			}
+			recs = append(recs, []interface{}{st, errClass(string(r.Ret)), retText(r.Ret), ordered, len(r.Events), retv})
 		}
 		out["receipts"] = recs
 		out["counter"] = w.counter(ev.InterchainMeta.Counter)
